@@ -155,7 +155,8 @@ def parse_ob_line(
 ) -> list[str]:
     """Outbrain line parsing - generic TSVs"""
 
-    line_string = line_string.strip()
+    # Remove the line terminator only - fields can be empty or carry whitespace
+    line_string = line_string.rstrip('\r\n')
     parts = line_string.split(delimiter)
     return parts
 
